@@ -44,6 +44,9 @@ def std_attr(n, env, rec):
     raise Undecidable('attribute %s' % key)
 
 
+ENV_AT = {}
+
+
 def holds(conds, env, sub=std_sub, call=std_call, attr=std_attr):
     """True / False / None (undecidable) for a conjunction of (test, polarity)."""
     res = True
@@ -66,7 +69,7 @@ def reached(fn, env, kinds=(ast.Assign, ast.AugAssign, ast.Return, ast.Raise, as
     env = dict(env)
     for st, ctx in walk(fn.node):
         # a straight-line rebinding of an input name (e.g. qubits = tuple(sorted(qubits))) changes what later guards see
-        if isinstance(st, ast.Assign) and len(st.targets) == 1 and isinstance(st.targets[0], ast.Name) and st.targets[0].id in env \
+        if isinstance(st, ast.Assign) and len(st.targets) == 1 and isinstance(st.targets[0], ast.Name) \
                 and not ctx.loops and holds(ctx.conds, env, sub, call, attr) is True:
             try:
                 env[st.targets[0].id] = ev(st.value, env, sub=sub, call=call, attr=attr)
@@ -77,12 +80,13 @@ def reached(fn, env, kinds=(ast.Assign, ast.AugAssign, ast.Return, ast.Raise, as
         h = holds(ctx.conds, env, sub, call, attr)
         if h is True or (h is None and not strict):
             out.append((st, ctx, h))
+            ENV_AT[id(st)] = dict(env)
     return out
 
 
 # --------------------------------------------------------------------------- Clifford map literals
-def map_literal(repo, f, call):
-    """(gs, ps) of a CliffordMap(gs=..., ps=...) call with literal arguments, as nested tuples."""
+def map_literal(repo, f, call, env=None):
+    """(gs, ps) of a CliffordMap(gs=..., ps=...) call with literal (or, given env, computable) arguments, as nested tuples."""
     args = {}
     names = ['gs', 'ps']
     for i, a in enumerate(call.args):
@@ -93,14 +97,36 @@ def map_literal(repo, f, call):
             args[kw.arg] = kw.value
     if 'gs' not in args:
         raise Undecidable('no gs argument')
-    gs = fold_literal(args['gs'])
+    def fold(node):
+        try:
+            return fold_literal(node)
+        except Undecidable:
+            if env is None:
+                raise
+            return fold_env(node, env)
+    gs = fold(args['gs'])
     if 'ps' in args:
-        ps = fold_literal(args['ps'])
+        ps = fold(args['ps'])
     else:
         ps = tuple([0] * len(gs))
     if not (isinstance(gs, tuple) and all(isinstance(r, tuple) for r in gs) and isinstance(ps, tuple)):
         raise Undecidable('not a matrix / vector literal')
     return (gs, ps)
+
+
+def fold_env(node, env):
+    """Literal array whose entries are arithmetic in known names (e.g. [[0,1],[1,k%2]] with k known)."""
+    if isinstance(node, ast.Call):
+        base = norm(node.func).split('.')[-1]
+        if base in ('array', 'tensor', 'asarray') and node.args:
+            return fold_env(node.args[0], env)
+        raise Undecidable('not a literal: %s' % norm(node))
+    if isinstance(node, (ast.List, ast.Tuple)):
+        return tuple(fold_env(e, env) for e in node.elts)
+    v = ev(node, env)
+    if isinstance(v, (int, float, bool)):
+        return int(v) if not isinstance(v, float) or v == int(v) else v
+    raise Undecidable('not a number: %s' % norm(node))
 
 
 def is_ctor_call(repo, f, node, clsname):
@@ -128,7 +154,7 @@ def gate_tables(repo, f, envs, sub=std_sub, call=std_call):
             res.append(('raise', raises[0]))
         elif len(tabs) == 1:
             try:
-                res.append(('table', map_literal(repo, f, tabs[0].value), tabs[0]))
+                res.append(('table', map_literal(repo, f, tabs[0].value, ENV_AT.get(id(tabs[0]))), tabs[0]))
             except Undecidable as e:
                 res.append(('undecided', str(e), tabs[0]))
         elif not tabs:
